@@ -60,6 +60,17 @@ def register_props(PROPS, g):
             return False, ("the write sites of the source differ from the table the model of C12/C19 rests on: new %s, gone %s"
                            % (sorted(set(got) - set(want)), sorted(set(want) - set(got))))
         return True, "%d write sites match the table" % len(got)
+    def syntax_census():
+        """token kinds, lexer functions, parser methods and AST String methods of the source vs the list the models transliterate"""
+        p = subprocess.run([os.path.join(BUILD, "verifh"), "census-syntax", REPO], stdout=subprocess.PIPE, stderr=subprocess.PIPE, text=True)
+        got = [l for l in p.stdout.splitlines() if l.strip()]
+        want = [l for l in open(os.path.join(ROOT, "corpus/census-syntax.expected")).read().splitlines() if l.strip()]
+        if got != want:
+            # informational only: a renamed or added helper does not by itself change behaviour, and the behaviour is what the
+            # correspondence run compares; the difference is recorded in the evidence so that a reader knows the model's shape is stale
+            return True, ("NOTE: the syntax code's functions/token kinds differ from the list the models transliterate: new %s, gone %s"
+                          % (sorted(set(got) - set(want)), sorted(set(want) - set(got))))
+        return True, "%d token kinds / lexer functions / parser methods / AST methods match the list the models transliterate" % len(got)
     hash_rule = ("real files under a private root: all permutations of small base lists (with duplicates and directories), "
                  "every position of an unreadable entry in lists <= 6, random lists with sizes around NumCPU, one large list; "
                  "GOMAXPROCS cycles through 1,2,4,16; each case runs in a child process built with the race detector")
@@ -167,3 +178,7 @@ def register_props(PROPS, g):
                     "assumptions": ["data-race freedom is not expressible in the transition system; it is observed by the race-detector build only",
                                     "the Go scheduler is abstracted as an arbitrary choice among enabled transitions (receive+process is one atomic step)"],
                     "trusted_extra": ["os.Open/Stat/io.Copy are abstracted as a map path -> Regular content | Directory | Unreadable"]}
+    for _p in ("C16", "C08", "C06", "C07", "C11", "C15"):
+        if _p in PROPS:
+            PROPS[_p].setdefault("extra", [])
+            PROPS[_p]["extra"] = list(PROPS[_p]["extra"]) + [("syntax-census", syntax_census)]
